@@ -50,6 +50,34 @@ def handle (op : String) (j : Json) : Except String Json := do
       | s :: m :: rest => (if s == 1 then -(m : Int) else (m : Int)) :: pairs rest
       | _ => []
     pure (reply (reply3 r (intList (pairs flat))))
+  | "m_fresh" =>
+    -- str_to_int on a fresh row selection rows[lo:hi] of a text column: var 0 = the selection (a reference into the column's
+    -- buffer), var 1 = its row lengths
+    let rows ← getNatListList j "rows"
+    let lo ← getNat j "lo"
+    let hi ← getNat j "hi"
+    let sel := (rows.drop lo).take (hi - lo)
+    let lens := sel.map List.length
+    let off := ((rows.take lo).map List.length).sum
+    let n := lens.sum
+    let s0 : State := { heap := [{ data := rows.flatten, writable := true }, { data := lens, writable := true }],
+                        env := [some { buf := 0, idx := (List.range n).map (· + off) }, some { buf := 1, idx := List.range lens.length }] }
+    let value : List Bytes → Bytes := fun a =>
+      let zeroed := splitRows (a.headD []) lens
+      let orig := splitRows (a.getD 2 []) lens
+      (zeroed.zip orig).flatMap (fun (z, o) => [if o.head? == some 45 then 1 else 0, digitsValue z])
+    let some s1 := run (strToIntFresh value) s0 | throw "model: first run raised"
+    let some s2 := run (strToIntFresh value) { heap := s1.heap, env := s1.env.take 2 } | throw "model: second run raised"
+    let parentChanged := (s2.heap[0]?).map (·.data) != some rows.flatten
+    let selNow := readAll s2.heap s2.env [0]
+    let mutated := (if parentChanged then ["arg0:parent-of-selection"] else []) ++ (if selNow != [sel.flatten] then ["arg0:selection-contents"] else [])
+    let r1 := readAll s1.heap s1.env [3]
+    let r2 := readAll s2.heap s2.env [3]
+    let rec pairsF : List Nat → List Int
+      | s :: m :: rest => (if s == 1 then -(m : Int) else (m : Int)) :: pairsF rest
+      | _ => []
+    pure (reply (Json.mkObj [("mutated", Json.arr (mutated.map Json.str).toArray), ("twice_equal", Json.bool (r1 == r2)),
+                            ("value", intList (pairsF (r1.headD [])))]))
   | "m_merge" =>
     let start ← getNatList j "start"
     let stop ← getNatList j "stop"
